@@ -505,6 +505,23 @@ def gen_acyclic(rng, maxc=12, feedback=True):
     return dict(blocks=blocks, bursts=bursts)
 
 
+def gen_constants():
+    """several different constants in one circuit - given as values and as Const objects, equal ones
+    repeated, in both orders: every block computes with ITS constant (pairs like -1/-2, 0/False/0.0-like
+    and 1/True are the ones a value cache can confuse)"""
+    pairs = [(["i", -1], ["i", -2]), (["i", -2], ["i", -1]), (["i", 1], ["i", 2]), (["i", 0], ["i", 1]),
+             (["i", -1], ["i", 1]), (["i", 3], ["i", -3])]
+    for a, b in pairs:
+        for ka, kb in (('val', 'val'), ('const', 'val'), ('val', 'const'), ('const', 'const')):
+            blocks = [dict(name='s0', kind='input', init=["i", 0])]
+            for i, (k, v) in enumerate(((ka, a), (kb, b), (ka, a))):
+                for lo in ("-3/2", "1/2"):
+                    blocks.append(dict(name=f"c{i}{'n' if lo[0] == '-' else 'p'}", kind='compare', lo=lo, hi=lo,
+                                       ins={'_': [[k, v]]}, events=[]))
+            blocks.append(dict(name='n0', kind='not', ins={'_': [['obj', 's0']]}, events=[]))
+            yield dict(blocks=blocks, bursts=[[['s0', 'put', ["i", 1]]]])
+
+
 def gen_long_chain(rng):
     """one Input feeding a chain of 205..260 Not blocks, the end of the chain reconverging with the input
     in an Xor: a single change makes more than 200 evaluations in one settling round"""
@@ -558,6 +575,7 @@ def check(run):
     n = 350 if run.tier == 'quick' else 9000
     cases = [gen_acyclic(run.rng) for _ in range(n)]
     cases += [gen_long_chain(run.rng) for _ in range(3 if run.tier == 'quick' else 40)]
+    cases += list(gen_constants())
     small = list(gen_small_exhaustive(2 if run.tier == 'quick' else 3))
     if run.tier == 'quick':
         small = small[::4]
